@@ -63,7 +63,7 @@ pub fn exercise(ctx: &mut Ctx, run: u32, banks: &Banks, what: &str) {
 const EXT: [i16; 12] = [i16::MIN, i16::MIN + 1, i16::MAX, i16::MAX - 1, -32767, 0, 3000, 1725, -1, 2047, -2048, -31043];
 
 fn run(ctx: &mut Ctx) {
-    let m = sim::Model::load(REPO);
+    let m = sim::Model::load(&repo_root());
     let inv = crate::maps::inverse(u32::MAX);
     let inv_real = crate::maps::inverse(11500);
     // ---- (i) random bank lists
